@@ -18,7 +18,8 @@ instance : Inhabited T := ⟨Tab.empty 0⟩
 
 def cfg : Cfg :=
   { ge := CelloGen.Table.tieGe, growEmpty := CelloGen.Table.setGrowsEmpty,
-    ideal := idealSize CelloGen.Table.primes CelloGen.Table.loadNum CelloGen.Table.loadDen }
+    ideal := idealSize CelloGen.Table.primes CelloGen.Table.loadNum CelloGen.Table.loadDen,
+    selfGuard := CelloGen.Table.assignGuardsSelf, getChecksKey := CelloGen.Table.getShortcutChecksKey }
 
 def NT : Nat := 8
 def FULL : Nat := 200      -- tables up to this many slots are dumped whole after every op
@@ -110,6 +111,7 @@ def obsEq : Obs K Int → Obs K Int → Bool
   | .nat a, .nat b => a = b
   | .items a, .items b => a.length = b.length && (a.length > 400 || sortItems a == sortItems b)
   | .badOp, .badOp => true
+  | .zeroed, .zeroed => true
   | _, _ => false
 
 def obsStr : Obs K Int → String
@@ -120,6 +122,7 @@ def obsStr : Obs K Int → String
   | .nat n => toString n
   | .items l => itemsStr l
   | .badOp => "bad-op"
+  | .zeroed => "zeroed"
 
 inductive Kind where | I | S | P deriving DecidableEq, Repr, Inhabited
 
@@ -146,6 +149,24 @@ def parseKey (kind : Kind) (tok : String) : Option K :=
       | _, _ => none
     | _ => none
 
+/-- the pairs of `newp` / `assignm`: `k1 v1 … kn vn` and possibly one trailing key token -/
+def parsePairs (kind : Kind) : List String → Option (List (K × Int) × Option K)
+  | [] => some ([], none)
+  | [k] => (parseKey kind k).map (fun k => ([], some k))
+  | k :: v :: rest =>
+    match parseKey kind k, v.toInt?, parsePairs kind rest with
+    | some k, some v, some (ps, d) => if inInt64 v then some ((k, v) :: ps, d) else none
+    | _, _, _ => none
+
+def MAXPAIRS : Nat := 30
+def MAXW : Nat := 72
+
+/-- a value object read as a key (`cast(v, t->ktype)`): Int → Int tables only -/
+def asKey (kind : Kind) (v : Int) : Option K :=
+  match kind with
+  | .I => some ⟨toString v, u64 v⟩
+  | _ => none
+
 structure St where
   ts : List T
   kinds : Array Kind
@@ -160,6 +181,7 @@ structure St where
   nKeyErr : Nat := 0
   nReplace : Nat := 0
   nDisplace : Nat := 0
+  nAliasDepart : Nat := 0     -- `getv` lines on which the model (as the code) departs from the map: known finding KF-C02-get-alias
 
 
 def main (args : List String) : IO Unit := do
@@ -190,6 +212,33 @@ def main (args : List String) : IO Unit := do
     let some t := tIdx? | IO.println "O bad-op"; continue
     if t ≥ NT then IO.println "O bad-op"; continue
     let kind := st.kinds[t]!
+    if w.length > MAXW then IO.println "O bad-op"; continue
+    -- `getk` / `getv`: `Table_Get` with a key argument that lives in the table's own slot array (no state change)
+    if let [nm, _, ktok] := w then
+      if nm == "getk" || nm == "getv" then
+        let some k := parseKey kind ktok | IO.println "O bad-op"; continue
+        let tag := (match kind with | .I => "I" | .S => "S" | .P => "P") ++ k.name
+        match st.seen[tag]? with
+        | some h => if h ≠ k.h then IO.println "O bad-op"; continue
+        | none => st := { st with seen := st.seen.insert tag k.h }
+        st := { st with nOps := st.nOps + 1 }
+        let tb := st.ts[t]!
+        match (if nm == "getk" then getViaKey cfg K.h (asKey kind) tb k else getViaVal cfg K.h (asKey kind) tb k) with
+        | .error f =>
+          IO.println s!"O {nm} {f.name}"
+          st := { st with halted := true }
+        | .ok o =>
+          IO.println s!"O {nm} {obsStr o}"
+          if st.shadow then
+            let m := st.spec[t]!
+            let so : Obs K Int := if nm == "getk" then (match Spec.get m k with | none => .raised .KeyError | some v => .val v)
+                                  else Spec.getOfVal (asKey kind) m k
+            if !(obsEq o so) then
+              if nm == "getv" then st := { st with nAliasDepart := st.nAliasDepart + 1 }
+              else
+                IO.println s!"M line={lineNo} op={nm} model={obsStr o} spec={obsStr so}"
+                st := { st with nMism := st.nMism + 1 }
+        continue
     let parsed : Option (Op K Int × Option K × String × Bool) := match w with
       | ["new", _, k] => (parseKind k).map (fun _ => (.new t, none, "new", true))
       | ["set", _, k, v] => match parseKey kind k, v.toInt? with
@@ -205,6 +254,18 @@ def main (args : List String) : IO Unit := do
       | ["resize", _, m] => (m.toNat?).bind (fun m => if m ≤ 4000000 then some (.resize t m, none, "resize", true) else none)
       | ["assign", _, s] => (s.toNat?).bind (fun s => if s < NT then some (.assign t s, none, "assign", true) else none)
       | ["copy", _, s] => (s.toNat?).bind (fun s => if s < NT then some (.copy t s, none, "copy", true) else none)
+      | "newp" :: _ :: kd :: rest =>
+        match parseKind kd with
+        | none => none
+        | some nk => match parsePairs nk rest with
+          | some (ps, d) => if ps.length ≤ MAXPAIRS then some (.newWith t ps d.isSome, none, "newp", true) else none
+          | none => none
+      | "assignm" :: _ :: kd :: rest =>
+        match parseKind kd with
+        | none => none
+        | some nk => match parsePairs nk rest with
+          | some (ps, none) => if ps.length ≤ MAXPAIRS then some (.assignMap t ps, none, "assignm", true) else none
+          | _ => none
       | _ => none
     let some (op, key, name, forceCs) := parsed | IO.println "O bad-op"; continue
     -- one hash per key name (what a hash *function* is)
@@ -213,6 +274,20 @@ def main (args : List String) : IO Unit := do
       match st.seen[tag]? with
       | some h => if h ≠ k.h then IO.println "O bad-op"; continue
       | none => st := { st with seen := st.seen.insert tag k.h }
+    -- the keys of a pair list: same rule (kind = the kind named in the op)
+    let pairKeys : List K × Option Kind := match w, op with
+      | _ :: _ :: kd :: rest, .newWith _ ps _ => (ps.map (·.1) ++ (match parsePairs ((parseKind kd).getD .I) rest with | some (_, some d) => [d] | _ => []), parseKind kd)
+      | _ :: _ :: kd :: _, .assignMap _ ps => (ps.map (·.1), parseKind kd)
+      | _, _ => ([], none)
+    let mut badHash := false
+    if let some nk := pairKeys.2 then
+      -- all keys parse before any is recorded (the harness does the same)
+      for k in pairKeys.1 do
+        let tag := (match nk with | .I => "I" | .S => "S" | .P => "P") ++ k.name
+        match st.seen[tag]? with
+        | some h => if h ≠ k.h then badHash := true; break
+        | none => st := { st with seen := st.seen.insert tag k.h }
+    if badHash then IO.println "O bad-op"; continue
     st := { st with nOps := st.nOps + 1 }
     let (beforeN, beforeItems) := match st.ts[t]? with | some b => (b.n, b.nitems) | none => (0, 0)
     -- hand the tables over to `step` as their only owner (in-place slot updates in compiled code)
@@ -227,7 +302,7 @@ def main (args : List String) : IO Unit := do
       let withCs := forceCs || after.n ≠ beforeN
       let line := match name with
         | "new" | "set" | "assign" | "copy" => s!"O {name} | {dump after key withCs}"
-        | "rem" | "resize" => s!"O {name} {obsStr o} | {dump after key withCs}"
+        | "rem" | "resize" | "newp" | "assignm" => s!"O {name} {obsStr o} | {dump after key withCs}"
         | "check" => s!"O check {after.n} {after.nitems} cs={checksum after}"
         | _ => s!"O {name} {obsStr o}"
       IO.println line
@@ -235,6 +310,8 @@ def main (args : List String) : IO Unit := do
       let kinds' := match w with
         | ["new", _, k] => st.kinds.set! t ((parseKind k).getD .I)
         | ["assign", _, s] | ["copy", _, s] => st.kinds.set! t (st.kinds[s.toNat!]!)
+        | "newp" :: _ :: k :: _ => (match o with | .done => st.kinds.set! t ((parseKind k).getD .I) | _ => st.kinds)
+        | "assignm" :: _ :: k :: _ => st.kinds.set! t ((parseKind k).getD .I)
         | _ => st.kinds
       -- statistics
       let rehashed := after.n ≠ beforeN
@@ -248,9 +325,7 @@ def main (args : List String) : IO Unit := do
       if st.shadow then
         if after.nitems > 1500 then st := { st with shadow := false }
         else
-          let selfAssign := match op with | .assign d s => d == s | _ => false
           let (spec', so) := specStep st.spec op
-          let spec' := if selfAssign then spec'.set t [] else spec'    -- known finding: assign(t, t) empties t
           st := { st with spec := spec' }
           let specLen := (spec'[t]!).length
           if !(obsEq o so) || after.nitems ≠ specLen then
@@ -259,4 +334,4 @@ def main (args : List String) : IO Unit := do
           if !(invOk after) then
             IO.println s!"M line={lineNo} op={name} invariant-broken {dump after key false}"
             st := { st with nMism := st.nMism + 1 }
-  IO.println s!"S ops={st.nOps} maxslots={st.maxSlots} rehashes={st.nRehash} keyerrors={st.nKeyErr} replaces={st.nReplace} model-mismatches={st.nMism} shadow={st.shadow}"
+  IO.println s!"S ops={st.nOps} maxslots={st.maxSlots} rehashes={st.nRehash} keyerrors={st.nKeyErr} replaces={st.nReplace} model-mismatches={st.nMism} alias-departures={st.nAliasDepart} shadow={st.shadow}"
